@@ -98,7 +98,9 @@ def derive_rule(ctx, res):
             res.ob(ok, "C14.derive", "C14.derive/%s/%s" % (adt, tr.rsplit("::", 1)[-1]), "%s: impl %s is %s (must be the compiler-derived one, over all fields in declaration order)" % (
                 adt, tr, "missing" if not impls else "hand-written" if not impls[0]["derived"] else "duplicated"),
                 sample={"type": adt, "trait": tr, "derived": True})
-    impls = I.impls_of(trait="std::clone::Clone", self_adt="json_syntax::object::Object")
-    res.ob(len(impls) == 1 and impls[0]["derived"], "C14.derive", "C14.derive/Object/Clone", "Object: Clone is not derived")
+    # clones equal their originals: Object::clone / clone_from interpreted on every small object (same entries, exact index) -
+    # derived or hand-written
+    from . import C06
+    C06.model_rule(ctx, res, rule="C14.clone", ops={"clone"})
     impls = I.impls_of(trait="std::cmp::Eq", self_adt="json_syntax::object::Object")
     res.ob(len(impls) == 1 and not impls[0]["items"], "C14.derive", "C14.derive/Object/Eq", "Object: Eq is not a marker impl")
